@@ -72,6 +72,13 @@ def inputs(nmax, seed, thorough):
         w = rng.standard_normal((n, 1, 4))
         out.append(("low-rank", omul(v, oherm(w)), None))
         out.append(("integer", rng.integers(-3, 4, (n, n, 4)).astype(float), None))
+        Rv = np.zeros((n, n, 4))
+        Rv[..., 0] = rng.standard_normal((n, n))
+        out.append(("real-valued", Rv, None))
+        Cv = np.zeros((n, n, 4))
+        Cv[..., 0] = rng.standard_normal((n, n))
+        Cv[..., 1 + (n % 3)] = rng.standard_normal((n, n))
+        out.append(("complex-embedded", Cv, None))
         if thorough:
             out.append(("generic-scaled", rng.standard_normal((n, n, 4)) * 1e-6, None))
             out.append(("zero", np.zeros((n, n, 4)), None))
